@@ -17,7 +17,7 @@ RULE = ("core-grammar statements (with comments) parsed in sampled dialects x AP
         "API's own output differs from the input SQL; distinct = distinct (sql, dialect, API)")
 ASSUMPTIONS = ["lazily allocated meta ({} vs None) is not an observable difference"]
 SPEC = {
-    "quick": {"shards": 16, "time_cap": 150, "statements": 1400},
+    "quick": {"shards": 16, "time_cap": 400, "statements": 1400},
     "thorough": {"shards": 16, "time_cap": 1500, "statements": 10000},
 }
 
